@@ -29,7 +29,7 @@ m = {
     "hooks": {
         "guard": "IPHREEQC_VERIF",
         "enable": "checks compile /repo/src themselves (vlib/build.py) with -DIPHREEQC_VERIF -DNDEBUG -DSWIG_SHARED_OBJ -DUSE_PHRQ_ALLOC, one build per sanitizer flavour (opt, asan+ubsan, tsan, clang fuzz) into /verif/.build",
-        "baseline_off_cmd": "cmake --build /repo/_build && ctest --test-dir /repo/_build -j8 --timeout 900",
+        "baseline_off_cmd": "cmake --build /repo/_build && ctest --test-dir /repo/_build -j1 --timeout 900",
         "source_commits": HOOK_COMMITS,
         "add_only": True,
     },
